@@ -184,7 +184,10 @@ def generate(quick, seed, rnd):
     def add(prefix, bs):
         for i, b in enumerate(bs):
             scripts.append(dict(id="%s%05d" % (prefix, i), steps=b, order="desc" if i % 4 == 3 else "asc"))
-    wit = list(res["gen"][1].printed) + (list(res["gen2"][1].printed) if "gen2" in res else [])
+    # gen2 explores two subjects with ONE DID each (a sub-world of the harness' world, where s1 has two DIDs): the expected
+    # outcomes of the model do not carry over, only the schedule does
+    wit2 = [[{k: v for k, v in st.items() if k != "res"} for st in b] for b in (res["gen2"][1].printed if "gen2" in res else [])]
+    wit = list(res["gen"][1].printed) + wit2
     wit.sort(key=lambda b: json.dumps(b, sort_keys=True))
     chosen, nb = pick(wit, n_exh, rnd)
     add("w", chosen)
@@ -282,7 +285,7 @@ def judge(rep, prop, results, scripts, common):
             rep.inconclusive.append("script %s: %s" % (r["id"], r["error"]))
         for d in [x for x in (r.get("drift") or []) if ": order: " not in x][:1]:
             if len(rep.notes) < 6:
-                rep.notes.append("DRIFT: script %s %s" % (r["id"], d[:300]))
+                rep.notes.append(("NOTE: %s" % d[:300]) if r["id"] == "probes" else "DRIFT: script %s %s" % (r["id"], d[:300]))
         for v in r["violations"]:
             if v["prop"] != prop:
                 continue
@@ -367,12 +370,12 @@ def run(prop, tier, seed, replay=None):
         rep.inconclusive.append("%d of %d scripts produced no result" % (len(scripts) - len(results), len(scripts)))
     elif not probe:
         rep.inconclusive.append("the probes produced no result")
-    elif ninc == 0:
-        rep.inconclusive = []
+    elif ninc <= max(2, len(results) // 50):
+        rep.inconclusive = []      # a few scripts without a verdict (scheduling hiccups) do not spoil the run
     if stats["blocked"]:
-        rep.notes.append("NOTE: in %d behaviours an API call did not return while the refresh round was stopped before a candidate: this implementation "
-                         "serialises API calls and the loop body (the interleavings of RefreshRechecks = FALSE do not exist in it); those behaviours were cut short"
-                         % stats["blocked"])
+        rep.notes.append("NOTE: in %d behaviours an API call did not return within 4 s while the refresh round was stopped before a candidate and "
+                         "returned once the round went on: this implementation seems to serialise API calls and the loop body (the interleavings of "
+                         "RefreshRechecks = FALSE do not exist in it); those behaviours were cut short" % stats["blocked"])
     if not selftest_ok:
         rep.inconclusive.append("oracle self-test failed: an adapter that swallows retractions was not reported: %s"
                                 % json.dumps([{k: v for k, v in r.items() if k != "trace"} for r in st])[:800])
@@ -381,26 +384,42 @@ def run(prop, tier, seed, replay=None):
     t2 = time.time()
     good = [r for r in results if r.get("trace") and not r.get("error")]
     traces = [r["trace"] for r in good]
-    acc, rej = vlib.validate_traces("TraceDiscoveryClient", "DiscoveryClient.trace.cfg", traces, timeout=1500)
-    note = None
-    if len(rej) > max(3, len(traces) // 10):
-        # does the code conform to the specification with a deviation repaired?
+    # a probe first (every rejected trace costs extra TLC runs): are the executions behaviours of the configured
+    # (descriptive) variant, or of the specification with some deviation repaired?
+    nprobe = min(len(traces), 40)
+    tcfg, note, scratch_dirs = "DiscoveryClient.trace.cfg", None, []
+    acc, rej = vlib.validate_traces("TraceDiscoveryClient", tcfg, traces[:nprobe], timeout=1500)
+    if len(rej) > nprobe // 4:
         best = None
-        for alt in (dict(RefreshRechecks="TRUE"), dict(DeactivateSyncsFirst="TRUE"), dict(PartialIsFailure="TRUE"),
-                    dict(RefreshRechecks="TRUE", DeactivateSyncsFirst="TRUE", PartialIsFailure="TRUE")):
+        devs = ("RefreshRechecks", "PartialIsFailure", "DeactivateSyncsFirst")
+        for mask in range(1, 8):
+            alt = {d: "TRUE" for i, d in enumerate(devs) if mask & (1 << i)}
             d = vlib.scratch("x05cfg")
+            scratch_dirs.append(d)
             path = os.path.join(d, "DiscoveryClient.trace.cfg")
             with open(path, "w") as fh:
                 fh.write(subst("DiscoveryClient.trace.cfg", **alt))
-            a2, r2 = vlib.validate_traces("TraceDiscoveryClient", path, [traces[x["index"]] for x in rej], timeout=1500)
-            shutil.rmtree(d, ignore_errors=True)
-            if best is None or len(r2) < best[1]:
-                best = (alt, len(r2))
-        if best and best[1] <= len(rej) // 4:
-            note = ("NOTE: %d recorded traces are behaviours of the specification with %s rather than of the configured descriptive variant: "
-                    "a deviation has been repaired in the code, switch the constant in spec/cfg/DiscoveryClient.{gen*,sim,trace,desc*}.cfg"
-                    % (len(rej), json.dumps(best[0])))
+            a2, r2 = vlib.validate_traces("TraceDiscoveryClient", path, traces[:nprobe], timeout=1500)
+            if best is None or len(r2) < len(best[2]):
+                best = (alt, a2, r2, path)
+        if best and len(best[2]) <= nprobe // 4:
+            note = ("NOTE: the recorded traces are behaviours of the specification with %s (not of the configured descriptive variant): a deviation "
+                    "has been repaired in the code, switch the constant in spec/cfg/DiscoveryClient.{gen*,sim,trace,desc*,live.desc}.cfg"
+                    % json.dumps(best[0], sort_keys=True))
             rep.notes.append(note)
+            acc, rej, tcfg = best[1], best[2], best[3]
+    if len(rej) <= nprobe // 4:
+        a2, r2 = vlib.validate_traces("TraceDiscoveryClient", tcfg, traces[nprobe:], timeout=1500)
+        for x in r2:
+            x["index"] += nprobe
+        acc, rej = acc + a2, rej + r2
+    else:
+        rep.notes.append("DRIFT: %d of the first %d recorded traces are not behaviours of the specification (in any variant); the remaining %d were "
+                         "not validated" % (len(rej), nprobe, len(traces) - nprobe))
+        if not rep.violations:
+            rep.inconclusive.append("recorded traces are not behaviours of the specification (spec/code drift)")
+    for d in scratch_dirs:
+        shutil.rmtree(d, ignore_errors=True)
     phases["trace_validation"] = round(time.time() - t2, 1)
     dbg = os.environ.get("VERIF_X05_DEBUG")
     if dbg:
